@@ -185,7 +185,7 @@ class Ctx:
                 if not m:
                     errors.append(f"{f}: no report in coqc output: {out[-500:]}")
                     continue
-                for a, b in re.findall(r"\(\s*(\d+)\s*,\s*(\d+)\s*\)", m.group(1)):
+                for a, b in re.findall(r"\(\s*(\d+)(?:%N)?\s*,\s*(\d+)(?:%N)?\s*\)", m.group(1)):
                     results.append((int(a), int(b)))
         return results, errors
 
